@@ -101,21 +101,24 @@ def scaledCall (scale : F) (v : PVal F) : Except Err F :=
         if isFinite (mul y scale) then .ok (mul y scale)
         else .error .range                             -- the nearest grid value lies beyond ±max
 
-/-- `ScaledInteger.validate` (450-456): the range test is on the value as offered, the result is the
-grid value clamped between the grid values of the limits -/
+/-- `ScaledInteger.validate`: a value whose grid value lies between the grid values of the limits is
+returned as that grid value; otherwise the range test (on the value as offered) decides whether it is
+clamped to a limit ("outside by not more than self.scale") or refused -/
 def scaledValidate (scale min max : F) (v : PVal F) : Except Err F :=
   match scaledCall scale v with
   | .error e => .error e
   | .ok result =>
-    match toFloat? v with
-    | none => .error .wrongType                      -- not reached: `scaledCall` answered already
-    | some x =>
-      if lt (sub min scale) x && lt x (add max scale) then
-        match scaledCall scale (.float min), scaledCall scale (.float max) with
-        | .ok lo, .ok hi => .ok (median3 lo result hi)
-        | .error e, _ => .error e
-        | _, .error e => .error e
-      else .error .range
+    match scaledCall scale (.float min), scaledCall scale (.float max) with
+    | .error e, _ => .error e
+    | .ok _, .error e => .error e
+    | .ok lo, .ok hi =>
+      if le lo result && le result hi then .ok result
+      else
+        match toFloat? v with
+        | none => .error .wrongType                      -- not reached: `scaledCall` answered already
+        | some x =>
+          if lt (sub min scale) x && lt x (add max scale) then .ok (median3 lo result hi)
+          else .error .range
 
 /-- `self._enum[value]` by member value -/
 def enumByValue (ms : List (String × Int)) (v : Int) : Option (String × Int) := ms.find? (fun m => m.2 == v)
